@@ -232,6 +232,16 @@ func classifyResolveErr(err error) string {
 // first error or at Done); policy "drain" keeps receiving until Done. Reports
 // what was received, in order, and whether the producer goroutine exited.
 func doChan(kv map[string]string) string {
+	p := parser.NewParser(cfgOf(kv))
+	res := chanRound(kv, p)
+	if kv["reuse"] == "1" {
+		// the same Parser value used for a second parse (as the package's own benchmark does): the second run is what is reported
+		res = chanRound(kv, p)
+	}
+	return res
+}
+
+func chanRound(kv map[string]string, p parser.Parser) string {
 	policy := kv["policy"]
 	seed := int64(geti(kv, "seed", 0))
 	rng := rand.New(rand.NewSource(seed))
@@ -239,7 +249,6 @@ func doChan(kv map[string]string) string {
 	if geti(kv, "jitter", 0) > 0 {
 		prodJitter = rand.New(rand.NewSource(seed + 7919))
 	}
-	p := parser.NewParser(cfgOf(kv))
 	pause := time.Duration(geti(kv, "pause", 0)) * time.Millisecond
 	exited := make(chan struct{})
 	go func() {
